@@ -39,10 +39,13 @@ VARIABLES l,        \* position in Rec
           nviol,
           devs      \* finding id -> [n |-> build events it was needed for, first |-> line of the first one]
 
-Fids == {"F01a", "F01b", "F01c", "F01d", "F01e", "F01f"}
+Fids == {"F01a", "F01b", "F01c", "F01d", "F01e", "F01f", "F01g"}
 MaxListed == 200
 Flag(v, line) == IF Len(v) < MaxListed THEN Append(v, line) ELSE v
 
+Bump(d, fs) == [f \in Fids |-> IF \E i \in 1..Len(fs) : fs[i] = f
+                               THEN [n |-> d[f].n + 1, first |-> IF d[f].n = 0 THEN l ELSE d[f].first]
+                               ELSE d[f]]
 HasB(r) == "b" \in DOMAIN r
 Has(e, f) == f \in DOMAIN e
 RECURSIVE SetToSeqB(_)
@@ -72,11 +75,22 @@ SameDigest(a, c) == a.ok /\ a.len = c.len /\ a.md5 = c.md5 /\ (HasB(a) /\ HasB(c
 (* The checksum of the chunk bytes and the compressed sizes have no        *)
 (* listed deviation.                                                       *)
 (***************************************************************************)
+(***************************************************************************)
+(* Dev_F01g: the call did not return (the driver process, run alone under  *)
+(* an address-space limit, was killed by the limit or by the time-out; the *)
+(* check records that as res = "abort" / "hang").  Signature: an           *)
+(* automatically chunking call, chunk size 0, non-empty payload.           *)
+(***************************************************************************)
+NeverReturned(e) == e.res \in {"abort", "hang"}
+DevF01g(e, cs) == /\ Known("F01g") /\ e.op \in {"add_data", "add_mixed_data", "compress"}
+                  /\ cs = 0 /\ e.len > 0
+
 \* mb: the model builder the container was built from; mcontent: what was handed to it; x: Apply(.., e)
 JudgeBuild(e, mb, mcontent, x) ==
   LET seqok == e.seq = seq + 1
   IN
-  IF e.res = "err" THEN Verdict(seqok /\ x.may, {})
+  IF NeverReturned(e) THEN Verdict(seqok /\ DevF01g(e, e.n), {"F01g"})
+  ELSE IF e.res = "err" THEN Verdict(seqok /\ x.may, {})
   ELSE IF e.res # "ok" \/ ~Has(e, "ser") \/ e.ser # "ok" \/ ~Has(e, "parse") \/ e.parse # "ok" THEN Verdict(FALSE, {})
   ELSE
     LET t  == ParseTable(IF Has(e, "bytes") THEN e.bytes ELSE e.head, e.total)
@@ -139,22 +153,22 @@ Step ==
         IN
         /\ viol' = IF j.ok THEN viol ELSE Flag(viol, l)
         /\ nviol' = IF j.ok THEN nviol ELSE nviol + 1
-        /\ devs' = [f \in Fids |-> IF \E i \in 1..Len(j.devs) : j.devs[i] = f
-                                   THEN [n |-> devs[f].n + 1, first |-> IF devs[f].n = 0 THEN l ELSE devs[f].first]
-                                   ELSE devs[f]]
+        /\ devs' = Bump(devs, j.devs)
         /\ phase' = "built" /\ seq' = e.seq
         /\ UNCHANGED <<b, inline, content>>
      ELSE
         LET x == Apply(b, e)
             argsok == IsAdd(e) => e.dlen = e.len /\ (inline => Len(e.data) = e.len)
-            resok  == e.res = x.res \/ (x.may /\ e.res \in {"ok", "err"})
+            dG     == NeverReturned(e) /\ DevF01g(e, b.cs)
+            resok  == e.res = x.res \/ (x.may /\ e.res \in {"ok", "err"}) \/ dG
         IN /\ b' = IF e.res = "ok" THEN x.st ELSE b
            /\ phase' = IF e.res = "ok" THEN "open" ELSE "failed"
            /\ content' = IF e.res = "ok" /\ IsAdd(e) /\ inline THEN content \o e.data ELSE content
            /\ seq' = e.seq
            /\ viol' = IF resok /\ argsok /\ e.seq = seq + 1 THEN viol ELSE Flag(viol, l)
            /\ nviol' = IF resok /\ argsok /\ e.seq = seq + 1 THEN nviol ELSE nviol + 1
-           /\ UNCHANGED <<inline, devs>>
+           /\ devs' = IF dG /\ argsok /\ e.seq = seq + 1 THEN Bump(devs, <<"F01g">>) ELSE devs
+           /\ UNCHANGED inline
   /\ l' = l + 1
 
 TNext == Step
@@ -162,5 +176,6 @@ Done == (l = Len(Rec) + 1) =>
   PrintT(<<"VERDICT", ToJson([events |-> Len(Rec), violations |-> viol, nviol |-> nviol,
                               deviations |-> SetToSeqB({<<devs[f].first, f>> : f \in {g \in Fids : devs[g].n > 0}}),
                               nF01a |-> devs["F01a"].n, nF01b |-> devs["F01b"].n, nF01c |-> devs["F01c"].n,
-                              nF01d |-> devs["F01d"].n, nF01e |-> devs["F01e"].n, nF01f |-> devs["F01f"].n])>>)
+                              nF01d |-> devs["F01d"].n, nF01e |-> devs["F01e"].n, nF01f |-> devs["F01f"].n,
+                              nF01g |-> devs["F01g"].n])>>)
 =============================================================================
